@@ -721,8 +721,9 @@ class NDNApp:
         name = enc.Name.normalize(name)
 
         def decorator(func: IntHandler):
-            self._autoreg_routes.append(name)
+            # (attach first: a refused duplicate must not be remembered as one more route to register)
             self.attach_handler(name, func, validator)
+            self._autoreg_routes.append(name)
             if self.face.running:
                 aio.create_task(self.register(name))
             return func
